@@ -18,11 +18,16 @@ Units:
        (precondition ``content_length < 2**53`` because of the float division, established by O8).
   O5   ``redact_url``: dependency obligation - the result term mentions only scheme, hostname, port, path.
   O6   every exception message / log argument built in external_fetch.py mentions a URL only through
-       ``redact_url``: syntactic taint scan of every raise / log site + symbolic check of the message
-       term at every raise site reached by O1, O7, O8 (``_validate_url``'s replacement chain by path).
-  O7   ``_fetch_one_chunk``, ``_head_probe``, ``_range_probe``, ``_raise_for_status_redacted``: validator,
-       config and URL are handed on unchanged; range size is ``end - start + 1``.
-  O8   ``_fetch_with_probe`` / ``fetch_url`` / ``_reset_session`` wiring and log arguments.
+       ``redact_url``: syntactic taint scan of every raise / log site of the module (unit "scan") + symbolic
+       check of the message / log-argument term at every raise / log site reached by O1, O2, O3, O7, O8;
+       ``_validate_url``: the validator's text passes url -> redact_url(url) and secret -> '<redacted>'.
+  O7   ``_raise_for_status_redacted``, ``_fetch_one_chunk``, ``_head_probe``, ``_range_probe``: client, URL,
+       config and validator are handed to the redirect manager unchanged; the Range header and the size
+       given to the range reader are ``bytes=start-end`` / ``end - start + 1``; scan: the session is
+       used by no other code, the hedging scheduler's chunk tasks hand url/config/validator on.
+  O8   ``_fetch_with_probe`` / ``fetch_url`` / ``_reset_session``: wiring (validator on every attempt, the
+       parallel path only for 0 <= length <= max_fetch_bytes < 2**53) and log arguments.
+  B1   labelled bounded stand-in: the float-ceiling lemma of O4 sampled on the real ``math.ceil``.
 """
 
 from __future__ import annotations
@@ -300,11 +305,11 @@ def mk_client(S, cfg, validator):
 
     def verb(method):
         def h(S, c, url, headers=None, allow_redirects=True, **kw):
+            n = S.ghost["nreq"]
+            S.inputs["prior_requests"] = n
             S.oblige("O1.request_with_automatic_redirects_disabled", allow_redirects is False, kind="pre")
             if validator is not None:
                 S.oblige("O1.request_immediately_preceded_by_accepting_validation_of_the_same_url", last_validation_accepts(S, url), kind="trace")
-            n = S.ghost["nreq"]
-            S.inputs["prior_requests"] = n
             S.oblige("O1.request_only_with_redirect_budget_left", n <= cfg.fields["max_redirects"], kind="trace")
             S.ghost["nreq"] = n + 1
             S.event("request", method, url, headers)
@@ -360,6 +365,7 @@ class _NativeContent:
     def __init__(self, body=b"", pieces=None, fail_after=None):
         self.body, self.pos, self.pieces, self.reads, self.fail_after = body, 0, list(pieces or []), [], fail_after
         self.handed = 0
+        self.returned = []
 
     def _next(self, n):
         if self.fail_after is not None and len(self.reads) > self.fail_after:
@@ -368,6 +374,7 @@ class _NativeContent:
         c = self.body[self.pos : self.pos + max(0, min(n, want))]
         self.pos += len(c)
         self.handed += len(c)
+        self.returned.append(len(c))
         return c
 
     async def read(self, n=-1):
@@ -569,8 +576,6 @@ def redirects(S):
             oblige_no_url_leak(S, "O6.redirect_errors_mention_urls_only_through_redact_url", exc, clean=("validator_text", "reason"))
             if exc_is(exc, RuntimeError):
                 canary(S, "O1.canary.redirect_errors_unreachable", False)
-    if reqs and seen.get("resp") is None and out_kind == "raise" and not any(exc is e for e in injected):
-        pass
     canary(S, "O1.canary.never_more_than_one_request", n <= 1)
 
 
@@ -726,11 +731,11 @@ def replay_read_range(inputs, ob):
     handed, bound = 0, min(exp, mx) + 1
     problems = []
     got = 0
-    for n in resp.content.reads:
+    for n, ret in zip(resp.content.reads, resp.content.returned + [0] * len(resp.content.reads)):
         if not (isinstance(n, int) and 1 <= n <= CHUNK_BOUND and got + n <= bound):
             problems.append(f"read({n}) after {got} bytes with expected={exp}, max_fetch_bytes={mx}")
             break
-        got = min(got + n, resp.content.handed)
+        got += ret
     if resp.content.handed > bound:
         problems.append(f"{resp.content.handed} bytes read, more than min(expected, max) + 1 = {bound}")
     if out[0] == "return" and (len(out[1]) != exp or out[1] != body[:exp]):
